@@ -132,7 +132,8 @@ func ReadEmbeddedConfig(binaryPath string) ([]byte, error) {
 	}
 
 	// Validate config length doesn't exceed file boundaries
-	if int64(configLen) > fileSize-FooterSize {
+	// (compare unsigned: a length >= 2^63 must not turn negative and slip through)
+	if configLen > uint64(fileSize-FooterSize) {
 		return nil, ErrConfigTooLarge
 	}
 
@@ -267,6 +268,9 @@ func GetOriginalBinarySize(binaryPath string) (int64, error) {
 
 	// Calculate original size
 	configLen := binary.LittleEndian.Uint64(footer[:8])
+	if configLen > uint64(fileSize-FooterSize) {
+		return 0, ErrConfigTooLarge
+	}
 	return fileSize - FooterSize - int64(configLen), nil
 }
 
